@@ -225,17 +225,33 @@ def gcStep (s : GcDrv) (line : String) : GcDrv × String :=
         let (g2, moved, now) := g1.gcEnd run
         ({ s with g := g2 }, endStr moved now)
   | "gcbegin" :: rest =>
+    -- `at=K`: parked inside the scan after K records (when the file holds more than K records)
     let kv := kvArgs rest
     let fid := argNat kv "fid" 0
     if s.run.isSome then (s, "rejected")
     else
-      match g.gcBegin fid with
-      | .error e => (s, gcErrStr e)
-      | .ok (g1, run) => ({ s with g := g1, run := some run }, "parked")
+      match kv.find? (·.1 == "at") with
+      | none =>
+        match g.gcBegin fid with
+        | .error e => (s, gcErrStr e)
+        | .ok (g1, run) => ({ s with g := g1, run := some run }, "parked")
+      | some _ =>
+        let k := argNat kv "at" 0
+        match g.gcBeginAt fid k with
+        | .error e => (s, gcErrStr e)
+        | .ok (g1, run) =>
+          ({ s with g := g1, run := some run }, if run.rest.isEmpty then "parked" else s!"parked scanned={k}")
+  | ["gccont"] =>
+    match s.run with
+    | none => (s, "norun")
+    | some run =>
+      if run.rest.isEmpty then (s, "noscan")
+      else ({ s with run := some (g.gcCont run) }, "parked")
   | ["gcend"] =>
     match s.run with
     | none => (s, "norun")
     | some run =>
+      let run := if run.rest.isEmpty then run else g.gcCont run
       let (g2, moved, now) := g.gcEnd run
       ({ s with g := g2, run := none }, endStr moved now)
   | _ => viaMvcc
